@@ -137,6 +137,7 @@ fn once(gsrc: String, input: String, cost: u8) -> Result<String, String> {
 /// C07's first clause on its own: for a grammar in which no rule derives just itself, the parse returns (whatever
 /// conflicts the table construction settled).  Used to replay the recorded finding about hidden left recursion.
 pub fn run_returns(g: &str, input: &str) -> Outcome {
+    crate::note_case("c07_returns", json!({"grammar": g, "input": input}));
     let expected = "the parse returns".to_string();
     let grm = match YaccGrammar::<u32>::new_with_storaget(YaccKind::Original(YaccOriginalActionKind::GenericParseTree), g) { Ok(x) => x, Err(_) => return Outcome { fails: false, observed: "not a grammar".into(), expected } };
     if cyclic(&grm) { return Outcome { fails: false, observed: "a rule derives just itself: outside the property".into(), expected }; }
@@ -161,6 +162,7 @@ pub fn run_returns(g: &str, input: &str) -> Outcome {
 }
 
 pub fn run(g: &str, input: &str, cost: u8) -> Outcome {
+    crate::note_case("c07_recover", json!({"grammar": g, "input": input, "cost": cost}));
     let (tx, rx) = mpsc::channel();
     let (g2, i2) = (g.to_string(), input.to_string());
     std::thread::spawn(move || { let _ = tx.send(once(g2, i2, cost)); });
